@@ -206,6 +206,27 @@ Section Deps.
   Lemma c_app_nonneg b i : 0 <= c_app b i.
   Proof. unfold c_app; destruct (b_active b && b_apply b); lia. Qed.
 
+  Lemma bias_restore_length (b : bias) vs : length (bias_restore b vs) = length vs.
+  Proof.
+    unfold bias_restore. destruct (b_active b), (b_apply b); rewrite ?on_children_length; reflexivity.
+  Qed.
+
+  Lemma bias_free_length (b : bias) vs : length (fst (bias_free b vs)) = length vs.
+  Proof.
+    unfold bias_free.
+    destruct (b_active b).
+    - pose proof (on_children_e_length var_decr_active (b_vars b) vs) as L1.
+      destruct (on_children_e var_decr_active (b_vars b) vs) as [vs1 e1]. cbn [fst] in L1.
+      destruct (b_apply b).
+      + pose proof (on_children_e_length var_decr_apply (b_vars b) vs1) as L2.
+        destruct (on_children_e var_decr_apply (b_vars b) vs1) as [vs2 e2]. cbn [fst] in *. congruence.
+      + cbn [fst]. exact L1.
+    - destruct (b_apply b).
+      + pose proof (on_children_e_length var_decr_apply (b_vars b) vs) as L2.
+        destruct (on_children_e var_decr_apply (b_vars b) vs) as [vs2 e2]. cbn [fst] in *. exact L2.
+      + reflexivity.
+  Qed.
+
   (* bias_restore of a bias that has just become active adds its references *)
   Lemma restore_VInv R A b vs :
     (forall i, 0 <= R i) -> (forall i, 0 <= A i) -> b_active b = true ->
@@ -306,7 +327,7 @@ Section Deps.
      activity flag is, gains the bias's references when it becomes active, loses them when it
      becomes inactive.  [TR b b' vs vs' e]: VInvS is carried from b's contribution to b''s. *)
   Definition TR (b b' : bias) (vs vs' : list var) (e_vars_ok : Prop) : Prop :=
-    same_static b b' /\
+    same_static b b' /\ length vs' = length vs /\
     forall R A, (forall i, 0 <= R i) -> (forall i, 0 <= A i) ->
       VInvS (fun i => R i + c_act b i) (fun i => A i + c_app b i) vs ->
       VInvS (fun i => R i + c_act b' i) (fun i => A i + c_app b' i) vs' /\ e_vars_ok.
@@ -319,7 +340,7 @@ Section Deps.
 
   Lemma TR_same b b' vs : same_static b b' -> b_active b' = b_active b -> TR b b' vs vs True.
   Proof.
-    intros Hs Ha. split; [exact Hs|]. intros R A HR HA H.
+    intros Hs Ha. split; [exact Hs|]. split; [reflexivity|]. intros R A HR HA H.
     destruct (c_static b b' Hs Ha) as [E1 E2]. split; [|exact I].
     intros i v Hi. rewrite E1, E2. apply H; assumption.
   Qed.
@@ -333,16 +354,16 @@ Section Deps.
   Lemma TR_trans b1 b2 b3 vs1 vs2 vs3 P Q :
     TR b1 b2 vs1 vs2 P -> TR b2 b3 vs2 vs3 Q -> TR b1 b3 vs1 vs3 (P /\ Q).
   Proof.
-    intros [S1 H1] [S2 H2]. split; [eapply same_static_trans; eassumption|].
+    intros [S1 [L1 H1]] [S2 [L2 H2]]. split; [eapply same_static_trans; eassumption|]. split; [congruence|].
     intros R A HR HA H. destruct (H1 R A HR HA H) as [G1 P1]. destruct (H2 R A HR HA G1) as [G2 Q1]. tauto.
   Qed.
 
   Lemma TR_weaken b b' vs vs' (P Q : Prop) : (P -> Q) -> TR b b' vs vs' P -> TR b b' vs vs' Q.
-  Proof. intros HPQ [S1 H1]. split; [exact S1|]. intros R A HR HA H. destruct (H1 R A HR HA H). auto. Qed.
+  Proof. intros HPQ [S1 [L1 H1]]. split; [exact S1|]. split; [exact L1|]. intros R A HR HA H. destruct (H1 R A HR HA H). auto. Qed.
 
   Lemma TR_awake b b' vs vs' P w : TR b b' vs vs' P -> TR b (set_bawake b' w) vs vs' P.
   Proof.
-    intros [S1 H1]. split; [eapply same_static_trans; [exact S1 | apply same_static_bawake]|].
+    intros [S1 [L1 H1]]. split; [eapply same_static_trans; [exact S1 | apply same_static_bawake]|]. split; [exact L1|].
     intros R A HR HA H. destruct (H1 R A HR HA H) as [G1 P1]. split; [|exact P1].
     destruct (c_static b' (set_bawake b' w) (same_static_bawake _ _) ltac:(destruct b'; reflexivity)) as [C1 C2].
     eapply VInvS_ext; [| |exact G1]; intros i; rewrite ?C1, ?C2; reflexivity.
@@ -358,7 +379,7 @@ Section Deps.
       + apply TR_same; [apply same_static_bact | destruct b; cbn in *; congruence].
     - cbn [fst snd]. split; [reflexivity|].
       set (b' := set_bact b true (if top then b_rc b else 1)).
-      split; [apply same_static_bact|]. intros R A HR HA H. split; [|exact I].
+      split; [apply same_static_bact|]. split; [apply bias_restore_length|]. intros R A HR HA H. split; [|exact I].
       assert (Hb' : b_active b' = true) by (destruct b; reflexivity).
       apply restore_VInv; try assumption.
       eapply VInvS_ext; [| |exact H]; intros i; cbn beta;
@@ -371,14 +392,18 @@ Section Deps.
        (b_active b = true -> b_rc b <= 1 -> snd (bias_disable_active b vs) = false).
   Proof.
     unfold bias_disable_active, disable_active_self. destruct (b_active b) eqn:Ea; cbn [negb].
-    2:{ cbn [fst snd]. split; [reflexivity|]. split; [apply same_static_refl|].
+    2:{ cbn [fst snd]. split; [reflexivity|]. split; [apply same_static_refl|]. split; [reflexivity|].
         intros R A HR HA H. split; [exact H | discriminate]. }
     destruct (1 <? b_rc b) eqn:Er.
-    - cbn [fst snd]. split; [reflexivity|]. split; [apply same_static_refl|].
+    - cbn [fst snd]. split; [reflexivity|]. split; [apply same_static_refl|]. split; [reflexivity|].
       intros R A HR HA H. split; [exact H|]. intros _ Hle. apply Z.ltb_lt in Er. lia.
     - destruct (on_children_e var_decr_active (b_vars b) vs) as [vs1 e1] eqn:E1.
       destruct (bias_free (set_bact b false 0) vs1) as [vs2 e2] eqn:E2.
       cbn [fst snd]. split; [reflexivity|]. split; [apply same_static_bact|].
+      split.
+      { pose proof (bias_free_length (set_bact b false 0) vs1) as L2. rewrite E2 in L2. cbn [fst] in L2.
+        pose proof (on_children_e_length var_decr_active (b_vars b) vs) as L1. rewrite E1 in L1. cbn [fst] in L1.
+        congruence. }
       intros R A HR HA H.
       destruct (release_VInv R A b vs HR HA Ea H) as (X1 & X2 & X3).
       rewrite E1 in *. cbn [fst snd] in *. rewrite E2 in *. cbn [fst snd] in *. subst e1 e2.
@@ -394,12 +419,13 @@ Section Deps.
        (0 < b_rc b -> snd (bias_decr_active b vs) = false).
   Proof.
     unfold bias_decr_active, decr_active_self. destruct (b_rc b <=? 0) eqn:E0.
-    - cbn [fst snd]. split; [reflexivity|]. split; [apply same_static_refl|].
+    - cbn [fst snd]. split; [reflexivity|]. split; [apply same_static_refl|]. split; [reflexivity|].
       intros R A HR HA H. split; [exact H|]. apply Z.leb_le in E0. lia.
     - destruct (b_rc b - 1 =? 0) eqn:E1.
       + set (b0 := set_bact b (b_active b) 0).
-        destruct (disable_active_TR b0 vs) as [F1 [F2 F3]].
+        destruct (disable_active_TR b0 vs) as [F1 [F2 [FL F3]]].
         split; [exact F1|]. split; [eapply same_static_trans; [apply same_static_bact | exact F2]|].
+        split; [exact FL|].
         intros R A HR HA H.
         assert (Hc := c_static b b0 (same_static_bact _ _ _) ltac:(destruct b; reflexivity)).
         destruct Hc as [C1 C2].
@@ -479,7 +505,7 @@ Section Deps.
   Lemma TR_in_context pre b b' post vs vs' P :
     TR b b' vs vs' P -> VInv (pre ++ b :: post) vs -> VInv (pre ++ b' :: post) vs' /\ P.
   Proof.
-    intros [S1 H1] H. unfold VInv in *.
+    intros [S1 [L1 H1]] H. unfold VInv in *.
     destruct (H1 (fun i => refs pre i + refs post i) (fun i => arefs pre i + arefs post i)) as [G1 G2].
     - intros i. pose proof (refs_nonneg pre i). pose proof (refs_nonneg post i). lia.
     - intros i. pose proof (arefs_nonneg pre i). pose proof (arefs_nonneg post i). lia.
@@ -488,10 +514,14 @@ Section Deps.
       eapply VInvS_ext; [| |exact G1]; intros i; rewrite ?refs_app, ?arefs_app; cbn [refs arefs]; lia.
   Qed.
 
+  Lemma TR_length b b' vs vs' P : TR b b' vs vs' P -> length vs' = length vs.
+  Proof. intros [_ [L _]]; exact L. Qed.
+
   Lemma wake_biases_spec it r : forall pre vs,
     VInv (pre ++ r) vs ->
     fst (fst (wake_biases fixed it r vs)) = map (wake_self it) r /\
-    VInv (pre ++ map (wake_self it) r) (snd (fst (wake_biases fixed it r vs))).
+    VInv (pre ++ map (wake_self it) r) (snd (fst (wake_biases fixed it r vs))) /\
+    length (snd (fst (wake_biases fixed it r vs))) = length vs.
   Proof.
     induction r as [|b r IH]; intros pre vs H.
     - cbn. auto.
@@ -499,16 +529,18 @@ Section Deps.
       destruct (wake_bias_TR it b vs) as [F1 F2].
       destruct (wake_bias fixed it b vs) as [[b1 vs1] e1]. cbn [fst snd] in *. subst b1.
       destruct (TR_in_context pre b (wake_self it b) r vs vs1 True F2 H) as [G _].
+      pose proof (TR_length _ _ _ _ _ F2) as L1.
       specialize (IH (pre ++ [wake_self it b]) vs1). rewrite <- app_assoc in IH. cbn [app] in IH.
-      destruct (IH G) as [I1 I2].
+      destruct (IH G) as [I1 [I2 I3]].
       destruct (wake_biases fixed it r vs1) as [[r' vs2] e2]. cbn [fst snd] in *. subst r'.
-      split; [reflexivity|]. rewrite <- app_assoc in I2. exact I2.
+      split; [reflexivity|]. split; [|congruence]. rewrite <- app_assoc in I2. exact I2.
   Qed.
 
   Lemma set_active_spec id on r : forall pre vs,
     VInv (pre ++ r) vs ->
     fst (fst (set_active id on r vs)) = map (set_active_self id on) r /\
-    VInv (pre ++ map (set_active_self id on) r) (snd (fst (set_active id on r vs))).
+    VInv (pre ++ map (set_active_self id on) r) (snd (fst (set_active id on r vs))) /\
+    length (snd (fst (set_active id on r vs))) = length vs.
   Proof.
     induction r as [|b r IH]; intros pre vs H.
     - cbn. auto.
@@ -518,23 +550,138 @@ Section Deps.
                     if on then let '(b1, v1) := bias_enable_active true b vs in (b1, v1, false)
                     else bias_disable_active b vs
                   else (b, vs, false)) = (b1, vs1, e1) /\ b1 = set_active_self id on b /\
-                 VInv (pre ++ b1 :: r) vs1).
+                 VInv (pre ++ b1 :: r) vs1 /\ length vs1 = length vs).
       { unfold set_active_self. destruct (Nat.eqb (b_id b) id).
         - destruct on.
           + destruct (enable_active_TR true b vs) as [F1 F2].
             destruct (bias_enable_active true b vs) as [b1 vs1]. cbn [fst snd] in *. subst b1.
             do 3 eexists. split; [reflexivity|]. split; [reflexivity|].
-            apply (TR_in_context pre b _ r vs vs1 True F2 H).
+            split; [apply (TR_in_context pre b _ r vs vs1 True F2 H) | apply (TR_length _ _ _ _ _ F2)].
           + destruct (disable_active_TR b vs) as [F1 F2].
             destruct (bias_disable_active b vs) as [[b1 vs1] e1]. cbn [fst snd] in *. subst b1.
             do 3 eexists. split; [reflexivity|]. split; [reflexivity|].
-            apply (TR_in_context pre b _ r vs vs1 _ F2 H).
-        - do 3 eexists. split; [reflexivity|]. split; [reflexivity | exact H]. }
-      destruct F as (b1 & vs1 & e1 & -> & -> & G).
+            split; [apply (TR_in_context pre b _ r vs vs1 _ F2 H) | apply (TR_length _ _ _ _ _ F2)].
+        - do 3 eexists. split; [reflexivity|]. split; [reflexivity|]. split; [exact H | reflexivity]. }
+      destruct F as (b1 & vs1 & e1 & -> & -> & G & L1).
       specialize (IH (pre ++ [set_active_self id on b]) vs1). rewrite <- app_assoc in IH. cbn [app] in IH.
-      destruct (IH G) as [I1 I2].
+      destruct (IH G) as [I1 [I2 I3]].
       destruct (set_active id on r vs1) as [[r' vs2] e2]. cbn [fst snd] in *. subst r'.
-      split; [reflexivity|]. rewrite <- app_assoc in I2. exact I2.
+      split; [reflexivity|]. split; [|congruence]. rewrite <- app_assoc in I2. exact I2.
+  Qed.
+
+  (* ---- the variables' own schedule and calc() --------------------------------------------------- *)
+  Lemma VI_enable_awake r a v : 0 <= r -> VI r a v -> VI r a (var_enable_awake v).
+  Proof.
+    destruct v as [tsf act rc aw ap arc x cs fb fba f].
+    unfold VI, var_enable_awake, var_ref_active, set_vawake, set_vact. cbn.
+    intros Hr (H1 & H2 & H3 & H4).
+    destruct aw; cbn in *; [repeat split; tauto|].
+    destruct act; cbn; repeat split; try tauto; try lia.
+    all: try (assert (Hn : ~ 0 < rc) by (intro X; specialize (H3 X); discriminate); lia).
+  Qed.
+
+  Lemma VI_disable_awake r a v : 0 <= r -> VI r a v -> VI r a (fst (var_disable_awake v)).
+  Proof.
+    destruct v as [tsf act rc aw ap arc x cs fb fba f].
+    unfold VI, var_disable_awake, var_decr_active, set_vawake, set_vact. cbn.
+    intros Hr (H1 & H2 & H3 & H4).
+    destruct aw; cbn in *; [|repeat split; tauto].
+    destruct (Z.leb_spec rc 0) as [L|L]; [lia|].
+    destruct (Z.eqb_spec (rc - 1) 0) as [E|E]; cbn; repeat split; try tauto; try lia.
+  Qed.
+
+  Lemma VI_wake_var it r a v : 0 <= r -> VI r a v -> VI r a (fst (wake_var fixed it v)).
+  Proof.
+    intros Hr H. unfold wake_var. destruct (1 <? v_tsf v); [|exact H].
+    destruct (on_schedule it (v_tsf v)); cbn [fst].
+    - apply VI_enable_awake; assumption.
+    - apply VI_disable_awake; [assumption|].
+      destruct (fixed && v_active v && negb (v_awake v)); [apply VI_enable_awake|]; assumption.
+  Qed.
+
+  Definition calc_one (it : Z) (v : var) (cs : list (@cvc_in T)) : var :=
+    let v1 := fst (wake_var fixed it v) in if v_active v1 then set_vcalc O v1 cs else v1.
+
+  Lemma calc_vars_nth it vs : forall xs i,
+    nth_error (fst (calc_vars O fixed it vs xs)) i =
+    option_map (fun v => calc_one it v (nth i xs [])) (nth_error vs i).
+  Proof.
+    induction vs as [|v r IH]; intros xs i.
+    - cbn. destruct i; reflexivity.
+    - cbn [calc_vars].
+      destruct (wake_var fixed it v) as [v1 e1] eqn:E1.
+      specialize (IH (tl xs)).
+      destruct (calc_vars O fixed it r (tl xs)) as [r' e2]. cbn [fst] in *.
+      destruct i as [|i]; cbn [nth_error option_map].
+      + unfold calc_one. rewrite E1. cbn [fst]. destruct xs; reflexivity.
+      + rewrite IH. destruct xs as [|c xs']; cbn [tl nth]; [destruct i|]; reflexivity.
+  Qed.
+
+  Lemma calc_vars_length it vs : forall xs, length (fst (calc_vars O fixed it vs xs)) = length vs.
+  Proof.
+    induction vs as [|v r IH]; intros xs; [reflexivity|].
+    cbn [calc_vars]. destruct (wake_var fixed it v) as [v1 e1].
+    specialize (IH (tl xs)). destruct (calc_vars O fixed it r (tl xs)) as [r' e2]. cbn [fst length] in *. lia.
+  Qed.
+
+  (* fields that the force bookkeeping never touches *)
+  Definition same_deps (v v' : var) : Prop :=
+    v_active v' = v_active v /\ v_rc v' = v_rc v /\ v_awake v' = v_awake v /\
+    v_apply v' = v_apply v /\ v_arc v' = v_arc v.
+
+  Lemma VI_same_deps r a v v' : same_deps v v' -> VI r a v -> VI r a v'.
+  Proof. intros (E1 & E2 & E3 & E4 & E5). unfold VI. rewrite E1, E2, E3, E4, E5. tauto. Qed.
+
+  Lemma same_deps_vcalc v cs : same_deps v (set_vcalc O v cs).
+  Proof. destruct v; unfold same_deps; cbn; tauto. Qed.
+  Lemma same_deps_vfb v x y : same_deps v (set_vfb v x y).
+  Proof. destruct v; unfold same_deps; cbn; tauto. Qed.
+  Lemma same_deps_vf v x : same_deps v (set_vf v x).
+  Proof. destruct v; unfold same_deps; cbn; tauto. Qed.
+
+  Lemma VI_calc_one it r a v cs : 0 <= r -> VI r a v -> VI r a (calc_one it v cs).
+  Proof.
+    intros Hr H. unfold calc_one. cbn zeta.
+    pose proof (VI_wake_var it r a v Hr H) as H1.
+    destruct (v_active (fst (wake_var fixed it v))); [|exact H1].
+    eapply VI_same_deps; [apply same_deps_vcalc | exact H1].
+  Qed.
+
+  Lemma VInv_calc_vars it bs vs xs : VInv bs vs -> VInv bs (fst (calc_vars O fixed it vs xs)).
+  Proof.
+    intros H i v Hi. rewrite calc_vars_nth in Hi.
+    destruct (nth_error vs i) as [v0|] eqn:E0; [|discriminate]. cbn in Hi. inversion Hi; subst v.
+    apply VI_calc_one; [apply refs_nonneg | apply H; assumption].
+  Qed.
+
+  (* ---- the initial state ---------------------------------------------------------------------------- *)
+  Lemma VInv_init_vars tsfs : VInv [] (map (init_var O) tsfs).
+  Proof.
+    intros i v Hi. rewrite nth_error_map in Hi. destruct (nth_error tsfs i); [|discriminate].
+    cbn in Hi. inversion Hi; subst v. unfold VI, init_var; cbn. repeat split; try lia; try discriminate.
+  Qed.
+
+  Lemma VInv_init_refs bs : forall pre vs,
+    (forall b, In b bs -> b_active b = true) ->
+    VInv pre vs -> VInv (pre ++ bs) (fold_left init_refs bs vs).
+  Proof.
+    induction bs as [|b r IH]; intros pre vs Hact H.
+    - rewrite app_nil_r. exact H.
+    - cbn [fold_left]. replace (pre ++ b :: r) with ((pre ++ [b]) ++ r) by (rewrite <- app_assoc; reflexivity).
+      apply IH; [intros b' Hb'; apply Hact; right; exact Hb'|].
+      unfold init_refs, VInv.
+      eapply VInvS_ext; [| |apply (restore_VInv (refs pre) (arefs pre) b vs)].
+      + intros i. rewrite refs_app. cbn [refs]. lia.
+      + intros i. rewrite arefs_app. cbn [arefs]. lia.
+      + intros i; apply refs_nonneg.
+      + intros i; apply arefs_nonneg.
+      + apply Hact; left; reflexivity.
+      + exact H.
+  Qed.
+
+  Lemma init_refs_length bs : forall vs, length (fold_left (@init_refs T BS) bs vs) = length vs.
+  Proof.
+    induction bs as [|b r IH]; intros vs; [reflexivity|]. cbn [fold_left]. rewrite IH. apply bias_restore_length.
   Qed.
 
 End Deps.
